@@ -19,7 +19,7 @@
     AddressWithWorkchain) are shown to be instances. *)
 From Coq Require Import List NArith ZArith Arith Lia Bool Sorted Permutation.
 From Tongo Require Import Lib.Bits Lib.Res Spec.Dict Spec.DictAug Model.Hashmap Model.HashmapHist Model.HashmapAug
-  Proofs.HashmapHistP Proofs.HashmapCtxP Proofs.HashmapAugP
+  Proofs.HashmapHistP Proofs.HashmapCtxP Proofs.HashmapAugP Proofs.HashmapFindP
   Proofs.DictP Proofs.HashmapPut Proofs.HashmapSort Proofs.HashmapKeys
   Proofs.HashmapP Proofs.HashmapP2 Proofs.HashmapHistory.
 Import ListNotations.
@@ -456,6 +456,34 @@ Theorem C05_clone_subset :
              if existsb (bits_eqb k) keys then lookup k m else None) /\
   (forall x, In x (clone_subset keys m) <-> In x m /\ existsb (bits_eqb (fst x)) keys = true).
 Proof. exact clone_subset_spec. Qed.
+
+(** ** the other lookups of the anchor files agree with the mapping *)
+
+(** tlb.ProveKeyInHashmap as a lookup: on every valid dictionary with any label
+    forms and for EVERY key of the dictionary's width — present or absent,
+    whatever bits of it lie under the root label, an inner label, the leaf label
+    or at a fork — it returns exactly what the mapping holds for that key and
+    fails for a key the mapping does not hold. *)
+Theorem C05_prove_key_lookup_agrees :
+  forall V venc vdec, vcodec venc vdec ->
+  forall n (t : apt V) c key,
+  wf_pt n (erase t) -> forms_valid t -> cells_of venc n t = Ok c -> length key = n ->
+  find_key vdec c key =
+    match lookup key (tree_to_list [] (erase t)) with Some v => Ok v | None => Err EOther end.
+Proof. exact find_key_lookup. Qed.
+Print Assumptions C05_prove_key_lookup_agrees.
+
+(** ShardState.AccountBalances: every account that has a balance is reported under
+    its own key with its own balance — for a split state the accounts of the
+    right half too (winning over a left account with the same key) — and nothing else. *)
+Theorem C05_account_balances :
+  forall B split (left right : list (bits * option B)) k,
+  lookup k (account_balances split left right) =
+    match (if split then get bits_eqb k (rev (balances_of right)) else None) with
+    | Some b => Some b
+    | None => get bits_eqb k (rev (balances_of left))
+    end.
+Proof. exact account_balances_lookup. Qed.
 
 (** ** the inputs that refuted the property before the repairs, now *)
 Theorem C05_address_key_fixed :
